@@ -45,6 +45,11 @@ class KeywordSearches:
         parameters: List[str] = terms.parameters
         nc_matches: Generator[NodeCoords, None, None]
 
+        # A NodeCoords which still wraps another (an element of a slice of a
+        # slice) is searched by the data it wraps
+        while isinstance(haystack, NodeCoords):
+            haystack = haystack.node
+
         if keyword is PathSearchKeywords.DISTINCT:
             nc_matches = KeywordSearches.distinct(
                 haystack, invert, parameters, yaml_path, **kwargs)
